@@ -33,6 +33,7 @@ RULES = [
     ("C08.wqguard", lambda c, r: lfht.rule_wqguard(c, r, "C08.wqguard")),
     ("C08.bucketat", lambda c, r: lfht.rule_bucketat(c, r, "C08.bucketat")),
     ("C08.partition", lambda c, r: c09.rule_partition(c, r, "C08.partition")),
+    ("C08.online", lambda c, r: lfht.rule_online(c, r, "C08.online")),   # destroy of a non-empty auto-resize table is refused (-EPERM) and leaves the caller as it found it: the emptiness check gives back the read-side lock / online state it took
     ("C08.mmapargs", lambda c, r: lfht.rule_mmapargs(c, r, "C08.mmapargs")),
     ("C08.addskel", lambda c, r: __import__("sa.rules.lfht2", fromlist=["x"]).rule_addskel(c, r, "C08.addskel")),
     ("C08.entry", lambda c, r: __import__("sa.rules.lfht2", fromlist=["x"]).rule_entry(c, r, "C08.entry")),
